@@ -37,13 +37,16 @@ pub(crate) fn optimize(
     let mut plans = Vec::with_capacity(36);
     let mut new_plan = Vec::with_capacity(36);
 
-    if enabled_modes.contains(mode) {
+    let first_iteration = if enabled_modes.contains(mode) {
         plans.push(start_plan);
+        0usize
     } else {
+        // the plans created by the switch have already read the first character (if any)
         start_plan.add_switches(&mut plans, data.len(), true, enabled_modes);
-    }
+        usize::from(!data.is_empty())
+    };
 
-    for iteration in 0usize.. {
+    for iteration in first_iteration.. {
         let mut at_end = false;
         let use_as_start = iteration == 0;
 
